@@ -208,13 +208,6 @@ Proof. destruct c; reflexivity. Qed.
 Lemma conf_set_large_twice c a b : conf_set_large (conf_set_large c a) b = conf_set_large c b.
 Proof. reflexivity. Qed.
 
-Lemma last_cons_default {A} (r : list A) : forall x d1 d2, last (x :: r) d1 = last (x :: r) d2.
-Proof.
-  induction r as [|y r IH]; intros x d1 d2; [reflexivity|].
-  change (last (x :: y :: r) d1) with (last (y :: r) d1). change (last (x :: y :: r) d2) with (last (y :: r) d2).
-  apply IH.
-Qed.
-
 (* after any sequence of file_flag setter calls the object is the one a fresh constructor call
    with the last flag builds *)
 Theorem ka_setters_inv c v ops : conf_valid c -> Forall flag ops ->
